@@ -63,8 +63,19 @@ def gen_case(rng, supervised, large_scale=False):
   bounds = None
   if supervised:
     n_c = int(rng.integers(6, 14))
+    if rng.random() < 0.5:
+      # partially labelled data: negative class ids mean "unknown"; such samples take no part in any constraint
+      y = y.copy()
+      unk = rng.choice(len(y), size=max(1, len(y) // 5), replace=False)
+      keep_ok = all((np.delete(y, unk) == c).sum() >= 2 for c in np.unique(y))
+      if keep_ok:
+        y[unk] = -1
     cons = Constraints(y).positive_negative_pairs(n_c, random_state=seed)
     pairs, lab = gen.documented_pairs(X, cons)
+    # the constraints the wrapper may use are those the labels imply: both samples labelled, same class <=> similar
+    ca, cb, cc, cd = (np.asarray(v, dtype=int) for v in cons)
+    constraints_ok = bool(np.all(y[ca] >= 0) and np.all(y[cb] >= 0) and np.all(y[cc] >= 0) and np.all(y[cd] >= 0)
+                          and np.all(y[ca] == y[cb]) and np.all(y[cc] != y[cd]))
   else:
     idx, lab = gen.pairs_from(rng, X, y, int(rng.integers(6, 16)))
     pairs = X[idx]
@@ -83,6 +94,7 @@ def gen_case(rng, supervised, large_scale=False):
     bounds = np.ceil(bounds) + np.array([0.0, 1.0])
     bounds_arg = [[int(v) for v in bounds], tuple(int(v) for v in bounds), bounds.astype(np.int64)][int(rng.integers(3))]
   ev = {'ev': 'ItmlFit', 'supervised': bool(supervised), 'mode': mode, 'prior_kind': prior_kind, 'exc': '',
+        'constraints_ok': bool(constraints_ok) if supervised else True,
         'gamma_inf': bool(np.isinf(gamma)), 'gamma': dy(0.0 if np.isinf(gamma) else gamma), 'max_iter': max_iter,
         'tight_tol': bool(tol <= 1e-9), 'n_iter': 0, 'L': [], 'M0': [], 'P': [], 'P0': [], 'chol': [], 'v': [], 'y': [],
         'lam': [], 'xi': [], 'has_xi': False, 'bounds': [], 'lam_source': ''}
